@@ -297,6 +297,12 @@ def oracles(case, res, pays, K):
                 if ex > 0:
                     bad.append(('ratelimit:window-bound:one-thread', f'direction {d}: {w["bytes"]} bytes crossed the underlying stream in [{w["a"]}, {w["b"]}] > L·T + burst',
                                 {'dir': d, 'window': [str(w['a']), str(w['b'])], 'stamp': 'underlying'}))
+            if lat_zero and not one_thread:
+                allow = K.burst(lim, eps, dmax) + n * dmax   # C20.window_bound_at_underlying_threads_partial
+                ex, w = window_excess(pre, lim, allow)
+                if ex > 0:
+                    bad.append(('ratelimit:window-bound:zero-latency', f'direction {d}: {w["bytes"]} bytes crossed the underlying streams in [{w["a"]}, {w["b"]}] > L·T + burst + N·dmax = {lim * (w["b"] - w["a"]) + allow}',
+                                {'dir': d, 'window': [str(w['a']), str(w['b'])], 'stamp': 'underlying', 'threads': n}))
         else:
             # several threads with latency: the full statement with the allowance DESIGN §6 names (one request per thread in flight)
             allow = K.burst(lim, eps, dmax) + n * dmax
@@ -666,6 +672,16 @@ def run(out, drv, info):
                        'CPython threading.Lock is a mutual-exclusion lock; the OS scheduler may run threads in any order (any lock order is a history)']
     out.extra['constants'] = {'threshold': str(K.thr), 'cap': str(K.cap), 'divisor': K.divisor, 'from_model': K.from_model}
     r = rng_for(out.seed, 'C20')
+    notes = info.get('extract_notes', {}) or {}
+    if any(k.startswith(('pause_', '_RateLimitedFileWrapper', 'limiter_sites')) for k in notes):
+        out.extra['source_shape_changed'] = sorted(k for k in notes if k.startswith(('pause_', '_RateLimitedFileWrapper', 'limiter_sites')))
+        n_hist = int(n_hist * 1.5)   # the code no longer has the shape the model was written from: more correspondence cases
+    # the burst expressions used by the oracle are the Lean definitions
+    if drv is not None and K.from_model:
+        for (Lq, eq, dq) in [(1024, Fr(1, 64), 256), (7, Fr(0), 1), (65536, Fr(1, 16), 4096)]:
+            b = drv.ask({'op': 'rate.burst', 'L': jr(Lq), 'eps': jr(eq), 'dmax': dq})
+            if (fr(b['post']), fr(b['pre']), fr(b['general'])) != (K.burst(Lq, eq, dq), K.burst_pre(Lq, eq, dq), K.general(Lq, eq)):
+                out.disagreement('burst expressions of the oracle differ from the Lean definitions', {'req': [Lq, str(eq), dq], 'reply': b})
 
     # ---- corpus (always first)
     corpus = []
